@@ -15,6 +15,8 @@ import (
 	"log/slog"
 	"math/big"
 	"math/rand"
+	"net/http"
+	"net/http/httptest"
 	"strings"
 	"sync"
 	"testing"
@@ -22,8 +24,10 @@ import (
 
 	"github.com/ethereum/go-ethereum"
 	"github.com/ethereum/go-ethereum/common"
+	"github.com/ethereum/go-ethereum/common/hexutil"
 	"github.com/ethereum/go-ethereum/core/types"
 	"github.com/ethereum/go-ethereum/crypto"
+	"github.com/ethereum/go-ethereum/ethclient"
 	"github.com/ethereum/go-ethereum/rpc"
 )
 
@@ -50,6 +54,8 @@ type c08OpIn struct {
 }
 
 type c08In struct {
+	T string `json:"t,omitempty"` // transport: "" = scripted EVM implementation handed to New;
+	//                                       "wire" = the production assembly New(ks, WrapEthClient(ethclient over JSON-RPC/HTTP))
 	Start uint64    `json:"start"` // account nonce at the beginning
 	Ops   []c08OpIn `json:"ops"`
 }
@@ -69,9 +75,9 @@ type c08Session struct {
 }
 
 type c08ObsOp struct {
-	K    string        `json:"k"` // send | conf | restart
-	S    *c08Session   `json:"s,omitempty"`
-	Conf uint64        `json:"conf,omitempty"`
+	K    string      `json:"k"` // send | conf | restart
+	S    *c08Session `json:"s,omitempty"`
+	Conf uint64      `json:"conf,omitempty"`
 }
 
 // ---- scripted node -------------------------------------------------------------------------
@@ -89,6 +95,8 @@ type c08Node struct {
 	cur      *c08Session
 	sessions []*c08Session
 	problems []string
+	wire     bool // JSON-RPC transport: requests are delimited by the driver, answers are what goes on the wire
+	reports  int  // confirmed-nonce answers given for a block number (the monitor's NonceAt)
 }
 
 func (n *c08Node) problem(format string, a ...interface{}) {
@@ -117,24 +125,18 @@ func (n *c08Node) BlockNumber(ctx context.Context) (uint64, error) {
 func (n *c08Node) NonceAt(ctx context.Context, account common.Address, blockNumber *big.Int) (uint64, error) {
 	n.mu.Lock()
 	defer n.mu.Unlock()
+	n.reports++
 	return n.conf, nil
 }
-func (n *c08Node) PendingNonceAt(ctx context.Context, account common.Address) (uint64, error) {
-	n.mu.Lock()
-	defer n.mu.Unlock()
-	if len(n.queue) == 0 {
-		n.problem("PendingNonceAt without a scripted request")
-		n.cur = nil
-		return 0, errC08Injected
-	}
-	s := n.queue[0]
-	n.queue = n.queue[1:]
+
+// beginLocked makes s the current request and fixes the node's pending-nonce answer for it.
+func (n *c08Node) beginLocked(s *c08Session) {
 	n.cur = s
 	n.sessions = append(n.sessions, s)
 	var v uint64
 	switch s.In.PM {
 	case "err":
-		return 0, errC08Injected
+		return
 	case "acc":
 		v = n.next
 	case "lag":
@@ -148,10 +150,25 @@ func (n *c08Node) PendingNonceAt(ctx context.Context, account common.Address) (u
 		v = s.In.PV
 	default:
 		n.problem("unknown pending mode %q", s.In.PM)
-		return 0, errC08Injected
+		return
 	}
 	s.Pending = &v
-	return v, nil
+}
+
+func (n *c08Node) PendingNonceAt(ctx context.Context, account common.Address) (uint64, error) {
+	n.mu.Lock()
+	defer n.mu.Unlock()
+	if len(n.queue) == 0 {
+		// a query outside any scripted request (e.g. at construction): the true pending nonce
+		return n.next, nil
+	}
+	s := n.queue[0]
+	n.queue = n.queue[1:]
+	n.beginLocked(s)
+	if s.Pending == nil {
+		return 0, errC08Injected
+	}
+	return *s.Pending, nil
 }
 func (n *c08Node) current(call string) *c08Session {
 	if n.cur == nil {
@@ -187,6 +204,9 @@ func (n *c08Node) EstimateGas(ctx context.Context, call ethereum.CallMsg) (uint6
 func (n *c08Node) SendTransaction(ctx context.Context, tx *types.Transaction) error {
 	n.mu.Lock()
 	defer n.mu.Unlock()
+	return n.submitLocked(tx)
+}
+func (n *c08Node) submitLocked(tx *types.Transaction) error {
 	s := n.current("SendTransaction")
 	if s.Reached != nil {
 		n.problem("two transactions submitted for one request")
@@ -213,6 +233,111 @@ func (n *c08Node) TransactionByHash(ctx context.Context, txHash common.Hash) (*t
 	return nil, false, errC08Injected
 }
 
+// ---- the same node behind JSON-RPC over HTTP --------------------------------------------------
+
+type c08RPCReq struct {
+	ID     json.RawMessage   `json:"id"`
+	Method string            `json:"method"`
+	Params []json.RawMessage `json:"params"`
+}
+
+func (n *c08Node) answerRPC(r c08RPCReq) (interface{}, error) {
+	n.mu.Lock()
+	defer n.mu.Unlock()
+	switch r.Method {
+	case "net_version":
+		return n.chainID.String(), nil
+	case "eth_chainId":
+		return hexutil.EncodeBig(n.chainID), nil
+	case "eth_blockNumber":
+		if !n.permit {
+			return nil, errC08Injected
+		}
+		n.permit = false
+		return hexutil.EncodeUint64(n.block), nil
+	case "eth_getTransactionCount":
+		var tag string
+		if len(r.Params) > 1 {
+			_ = json.Unmarshal(r.Params[1], &tag)
+		}
+		if tag == "pending" {
+			if n.cur == nil {
+				return hexutil.EncodeUint64(n.next), nil
+			}
+			if n.cur.Pending == nil {
+				return nil, errC08Injected
+			}
+			return hexutil.EncodeUint64(*n.cur.Pending), nil
+		}
+		if tag != "latest" && tag != "" {
+			n.reports++
+		}
+		return hexutil.EncodeUint64(n.conf), nil
+	case "eth_estimateGas":
+		if !n.current("eth_estimateGas").In.Est {
+			return nil, errC08Injected
+		}
+		return hexutil.EncodeUint64(30000), nil
+	case "eth_maxPriorityFeePerGas":
+		if !n.current("eth_maxPriorityFeePerGas").In.Tip {
+			return nil, errC08Injected
+		}
+		return hexutil.EncodeUint64(1000000000), nil
+	case "eth_gasPrice":
+		if !n.current("eth_gasPrice").In.GP {
+			return nil, errC08Injected
+		}
+		return hexutil.EncodeUint64(2000000000), nil
+	case "eth_sendRawTransaction":
+		var raw hexutil.Bytes
+		if len(r.Params) < 1 || json.Unmarshal(r.Params[0], &raw) != nil {
+			n.problem("eth_sendRawTransaction: bad parameters")
+			return nil, errC08Injected
+		}
+		tx := new(types.Transaction)
+		if err := tx.UnmarshalBinary(raw); err != nil {
+			n.problem("eth_sendRawTransaction: undecodable transaction: %v", err)
+			return nil, errC08Injected
+		}
+		if err := n.submitLocked(tx); err != nil {
+			return nil, err
+		}
+		return tx.Hash().Hex(), nil
+	case "eth_getTransactionReceipt", "eth_getTransactionByHash", "eth_call":
+		return nil, errC08Injected
+	}
+	return nil, fmt.Errorf("c08: method %s not served", r.Method)
+}
+
+func (n *c08Node) ServeHTTP(w http.ResponseWriter, req *http.Request) {
+	body, _ := io.ReadAll(req.Body)
+	reply := func(r c08RPCReq) map[string]interface{} {
+		res, err := n.answerRPC(r)
+		out := map[string]interface{}{"jsonrpc": "2.0", "id": r.ID}
+		if err != nil {
+			out["error"] = map[string]interface{}{"code": -32000, "message": err.Error()}
+		} else {
+			out["result"] = res
+		}
+		return out
+	}
+	w.Header().Set("Content-Type", "application/json")
+	trimmed := strings.TrimSpace(string(body))
+	if strings.HasPrefix(trimmed, "[") {
+		var rs []c08RPCReq
+		_ = json.Unmarshal(body, &rs)
+		outs := make([]map[string]interface{}, 0, len(rs))
+		for _, r := range rs {
+			outs = append(outs, reply(r))
+		}
+		_ = json.NewEncoder(w).Encode(outs)
+		return
+	}
+	var r c08RPCReq
+	_ = json.Unmarshal(body, &r)
+	_ = json.NewEncoder(w).Encode(reply(r))
+}
+
 // key signer: real London signatures, failure injected per request by the node's script
 type c08Signer struct {
 	key  *ecdsa.PrivateKey
@@ -229,10 +354,10 @@ func (k *c08Signer) SignTx(tx *types.Transaction, chainID *big.Int) (*types.Tran
 	}
 	return types.SignTx(tx, types.NewLondonSigner(chainID), k.key)
 }
-func (k *c08Signer) GetAddress() common.Address                  { return crypto.PubkeyToAddress(k.key.PublicKey) }
-func (k *c08Signer) GetPrivateKey() (*ecdsa.PrivateKey, error)   { return k.key, nil }
-func (k *c08Signer) ZeroPrivateKey(key *ecdsa.PrivateKey)        {}
-func (k *c08Signer) String() string                              { return "c08" }
+func (k *c08Signer) GetAddress() common.Address                { return crypto.PubkeyToAddress(k.key.PublicKey) }
+func (k *c08Signer) GetPrivateKey() (*ecdsa.PrivateKey, error) { return k.key, nil }
+func (k *c08Signer) ZeroPrivateKey(key *ecdsa.PrivateKey)      {}
+func (k *c08Signer) String() string                            { return "c08" }
 
 // ---- running one history -------------------------------------------------------------------
 
@@ -250,19 +375,42 @@ func c08Run(t *testing.T, in c08In, slow int) ([]c08ObsOp, []string) {
 	if err != nil {
 		t.Fatal(err)
 	}
-	node := &c08Node{chainID: big.NewInt(31337), next: in.Start}
+	node := &c08Node{chainID: big.NewInt(31337), next: in.Start, wire: in.T == "wire"}
 	ks := &c08Signer{key: key, node: node}
 	logger := slog.New(slog.NewTextHandler(io.Discard, nil))
 	owner := ks.GetAddress()
+	var srv *httptest.Server
+	var rpcClient *rpc.Client
+	if node.wire {
+		srv = httptest.NewServer(node)
+		defer srv.Close()
+	}
 	newClient := func() *EvmClient {
-		c, err := New(ks, node, logger)
+		var backend EVM = node
+		if node.wire { // assembled as pkg/node does it
+			if rpcClient != nil {
+				rpcClient.Close()
+			}
+			rc, err := rpc.DialContext(context.Background(), srv.URL)
+			if err != nil {
+				t.Fatalf("c08: dial: %v", err)
+			}
+			rpcClient = rc
+			backend = WrapEthClient(ethclient.NewClient(rc))
+		}
+		c, err := New(ks, backend, logger)
 		if err != nil {
 			t.Fatalf("c08: New: %v", err)
 		}
 		return c
 	}
 	client := newClient()
-	defer func() { _ = client.Close() }()
+	defer func() {
+		_ = client.Close()
+		if rpcClient != nil {
+			rpcClient.Close()
+		}
+	}()
 	var obs []c08ObsOp
 	mkReq := func(op c08OpIn) *TxRequest {
 		r := &TxRequest{To: &owner, CallData: []byte{1, 2, 3}, Value: big.NewInt(0)}
@@ -276,7 +424,7 @@ func c08Run(t *testing.T, in c08In, slow int) ([]c08ObsOp, []string) {
 	}
 	for _, op := range in.Ops {
 		switch op.K {
-		case "send", "burst":
+		case "send", "burst", "send-seq":
 			if len(op.S) == 0 {
 				continue
 			}
@@ -286,8 +434,10 @@ func c08Run(t *testing.T, in c08In, slow int) ([]c08ObsOp, []string) {
 			confRead := client.monitor.lastConfirmedNonce.Load()
 			node.mu.Lock()
 			first := len(node.sessions)
-			for _, s := range op.S {
-				node.queue = append(node.queue, &c08Session{In: s, Gas: op.Gas, Price: op.Price, ConfRead: confRead})
+			if !node.wire {
+				for _, s := range op.S {
+					node.queue = append(node.queue, &c08Session{In: s, Gas: op.Gas, Price: op.Price, ConfRead: confRead})
+				}
 			}
 			node.mu.Unlock()
 			type res struct {
@@ -297,13 +447,27 @@ func c08Run(t *testing.T, in c08In, slow int) ([]c08ObsOp, []string) {
 			results := make([]res, len(op.S))
 			var wg sync.WaitGroup
 			for i := range op.S {
+				if node.wire {
+					// one request at a time; the node's pending count for this request is fixed now and is
+					// what goes on the wire to whoever asks with the "pending" tag
+					node.mu.Lock()
+					node.beginLocked(&c08Session{In: op.S[i], Gas: op.Gas, Price: op.Price,
+						ConfRead: client.monitor.lastConfirmedNonce.Load()})
+					node.mu.Unlock()
+					h, err := client.Send(context.Background(), mkReq(op))
+					results[i] = res{h, err}
+					node.mu.Lock()
+					node.cur = nil
+					node.mu.Unlock()
+					continue
+				}
 				wg.Add(1)
 				go func(i int) {
 					defer wg.Done()
 					h, err := client.Send(context.Background(), mkReq(op))
 					results[i] = res{h, err}
 				}(i)
-				if op.K == "send" {
+				if op.K != "burst" {
 					wg.Wait()
 				}
 			}
@@ -355,20 +519,20 @@ func c08Run(t *testing.T, in c08In, slow int) ([]c08ObsOp, []string) {
 			node.conf = v
 			node.block++
 			node.permit = true
+			reportsBefore := node.reports
 			node.mu.Unlock()
 			// wake the monitor; the second hand-over is only taken once the first round
 			// (BlockNumber, NonceAt, store) has completed
 			if !c08Kick(client, slow) || !c08Kick(client, slow) {
 				node.problem("monitor did not take the wake-up")
 			}
-			deadline := time.Now().Add(time.Duration(5*slow) * time.Second)
-			for client.monitor.lastConfirmedNonce.Load() != v && time.Now().Before(deadline) {
-				time.Sleep(time.Millisecond)
-			}
 			node.mu.Lock()
 			if node.permit {
 				node.problem("monitor did not poll")
 				node.permit = false
+			}
+			if node.reports == reportsBefore {
+				node.problem("monitor did not ask for the confirmed nonce")
 			}
 			node.mu.Unlock()
 			obs = append(obs, c08ObsOp{K: "conf", Conf: v})
@@ -602,6 +766,91 @@ func c08StaleHistories() []c08In {
 	return out
 }
 
+// a client (re)started while the account has an unconfirmed backlog: confirmed c, pending c+k.
+// The window must stay anchored at what the node REPORTED as confirmed (c), whatever the pending nonce is.
+func c08BacklogHistories(long bool) []c08In {
+	var out []c08In
+	sends := func(n int, s c08SendIn) []c08OpIn {
+		var ops []c08OpIn
+		for i := 0; i < n; i++ {
+			ops = append(ops, c08Send(true, true, s))
+		}
+		return ops
+	}
+	for _, c := range []uint64{0, 10, 5000} {
+		for _, k := range []uint64{1, 20, 1000, 1024, 2000} {
+			for _, restart := range []bool{false, true} {
+				in := c08In{Start: c + k}
+				in.Ops = append(in.Ops, c08OpIn{K: "conf", CM: "abs", CV: c})
+				if restart {
+					in.Ops = append(in.Ops, sends(2, c08OK("acc", 0))...)
+					in.Ops = append(in.Ops, c08OpIn{K: "restart"}, c08OpIn{K: "conf", CM: "abs", CV: c})
+				}
+				switch {
+				case k >= 1000 && k <= 1024: // walk up to and across c+1024
+					in.Ops = append(in.Ops, sends(int(1024-k)+6, c08OK("acc", 0))...)
+				case k > 1024: // already beyond: everything must be refused
+					in.Ops = append(in.Ops, sends(4, c08OK("acc", 0))...)
+				default: // outside transactions push the pending nonce just across c+1024
+					in.Ops = append(in.Ops, sends(2, c08OK("acc", 0))...)
+					in.Ops = append(in.Ops, c08Send(true, true, c08OK("out", 1024-k-2)))
+					in.Ops = append(in.Ops, sends(3, c08OK("acc", 0))...)
+				}
+				// the backlog confirms: the window moves on
+				in.Ops = append(in.Ops, c08OpIn{K: "conf", CM: "next", CV: 0})
+				in.Ops = append(in.Ops, sends(2, c08OK("acc", 0))...)
+				out = append(out, in)
+				if long && k < 1000 && c == 10 { // no jumps: one transaction after the other up to the limit
+					in2 := c08In{Start: c + k}
+					in2.Ops = append(in2.Ops, c08OpIn{K: "conf", CM: "abs", CV: c})
+					if restart {
+						in2.Ops = append(in2.Ops, c08OpIn{K: "restart"}, c08OpIn{K: "conf", CM: "abs", CV: c})
+					}
+					in2.Ops = append(in2.Ops, sends(int(1024-k)+5, c08OK("acc", 0))...)
+					out = append(out, in2)
+				}
+			}
+		}
+	}
+	return out
+}
+
+// restart-heavy sequential histories for the JSON-RPC transport: submissions stay unconfirmed in the
+// pool (confirmed count below pending), outside transactions, lag, failures
+func c08WireHistory(r *rand.Rand) c08In {
+	in := c08In{T: "wire", Start: uint64(r.Intn(4)) * uint64(r.Intn(300))}
+	if r.Intn(2) == 0 {
+		in.Ops = append(in.Ops, c08OpIn{K: "conf", CM: "next", CV: uint64(r.Intn(3))})
+	}
+	n := 3 + r.Intn(14)
+	failRate := []int{0, 0, 5, 20}[r.Intn(4)]
+	for i := 0; i < n; i++ {
+		switch x := r.Intn(10); {
+		case x < 6:
+			in.Ops = append(in.Ops, c08Send(r.Intn(2) == 0, r.Intn(2) == 0, c08RandSend(r, failRate)))
+		case x < 7:
+			in.Ops = append(in.Ops, c08OpIn{K: "conf", CM: "next", CV: uint64(r.Intn(5))})
+		default:
+			in.Ops = append(in.Ops, c08OpIn{K: "restart"})
+			if r.Intn(2) == 0 {
+				in.Ops = append(in.Ops, c08Send(true, true, c08OK("acc", 0)))
+			}
+		}
+	}
+	return in
+}
+
+func c08OnWire(in c08In) c08In {
+	out := c08In{T: "wire", Start: in.Start}
+	for _, op := range in.Ops {
+		if op.K == "burst" {
+			op.K = "send-seq"
+		}
+		out.Ops = append(out.Ops, op)
+	}
+	return out
+}
+
 // all histories of exactly n operations over a small alphabet
 func c08Exhaustive(n int, emit func(c08In)) {
 	alphabet := []c08OpIn{
@@ -668,6 +917,29 @@ func TestVerifC08(t *testing.T) {
 	if e.Tier == "thorough" {
 		c08Exhaustive(4, func(in c08In) { run("exhaustive-small", in) })
 		c08Exhaustive(5, func(in c08In) { run("exhaustive-small", in) })
+	}
+	thorough := e.Tier == "thorough"
+	for _, in := range c08BacklogHistories(thorough) {
+		run("restart-with-backlog", in)
+	}
+	// the production assembly: New over WrapEthClient(ethclient) over JSON-RPC/HTTP
+	for _, in := range c08BacklogHistories(false) {
+		if in.Start-in.Ops[0].CV >= 1000 || thorough {
+			run("wire-restart-with-backlog", c08OnWire(in))
+		}
+	}
+	for i, in := range c08StaleHistories() {
+		if i%6 == 0 || thorough {
+			run("wire-stale-pending", c08OnWire(in))
+		}
+	}
+	for i, in := range c08FailureHistories() {
+		if i%8 == 0 || thorough {
+			run("wire-failure-at-each-call", c08OnWire(in))
+		}
+	}
+	for i := 0; i < 40+e.N/10; i++ {
+		run("wire-restart-heavy", c08WireHistory(e.rng))
 	}
 	for i := 0; i < e.N; i++ {
 		run("random-history", c08RandHistory(e.rng))
